@@ -9,6 +9,8 @@ TRUST = ('Trusted: nightly MIR == what stable rustc builds (counterexamples are 
          '(listed per run in the evidence, validated by the concrete differential self-test against the native binary). ')
 
 CLAIMED = {
+    'C19': ('Every request control and extended request of the library (17 kinds incl. critical wrappers, all 8 PasswordModify combinations, both SyncRequest modes) is built by the real From impls / construct_exop from MIR with symbolic sizes, cookies, identifiers and filter characters, and compared by z3 with the OID, criticality and BER value written here from the defining RFCs; every response parser (PagedResults, SyncState, SyncDone, the 4 SyncInfo alternatives with DEFAULTs, ReadEntry, WhoAmI, StartTxn, PasswordModify) is run on reference encodings with symbolic contents and short/81/82/84 length forms; control lists of 0..2 (3) controls go through build_tag and parse_controls.',
+            TRUST + 'Cookies and identifiers <= 2 (4) bytes; filters in Assertion/MatchedValues from 2 templates (the grammar itself is C08).', '§6 C19'),
     'C20': ('get_url_params runs from MIR with url::Url::path()/query() replaced by symbolic strings (every string over the alphabet the url crate can return, path <=3 (4) and query <=6 (9) characters, plus structured queries with 0..2 attributes, scope word, filter and 0..2 extensions with symbolic criticality, letter case and values); a reference RFC 4516 splitter / percent-decoder written for the check gives the expected components, defaults and the three error classes; z3 discharges each comparison. Counterexamples are replayed through the real url crate.',
             TRUST + "Stub contract for url::Url accessors (alphabet; path empty or starting with '/'), validated on every replay. Strings beyond the bounds are outside the claim.", '§6 C20'),
     'C08': ('The whole nom grammar of src/filter.rs is executed from MIR. Raw lane: every byte string of <=5 (7) bytes over all 256 values is compared with a forking reference RFC 4515 parser/compiler written for the check (accepted iff in the grammar + documented extensions; BER equals the encoding of the syntax tree; no path panics). Grammar lane: 23 symbolic AST shapes (all item kinds, substring patterns, every extensible-match combination, and/or/not nesting) printed with a symbolic raw-or-\\hh choice per value byte and symbolic hex case.',
